@@ -20,13 +20,23 @@ inductive Chain : List (Nat × Nat) → Nat → Prop
 /-- log `k` is in one of the received batches -/
 def Delivered (s : State) (k : Nat) : Prop := ∃ b ∈ s.recv, b.1 < k ∧ k ≤ b.2
 
+/-- log `k` was acknowledged by the exporter itself (item level) since the last reset -/
+def Acked (s : State) (k : Nat) : Prop := k ∈ s.acked
+
+/-- every log up to `n` was acknowledged item by item since the last reset -/
+def AckedUpTo (s : State) (n : Nat) : Prop := ∀ k, 1 ≤ k → k ≤ n → k ∈ s.acked
+
+/-- Every page goes to the exporter in ONE call (no `maxItems`, or `maxItems` at
+    least the page size): the configurations where "in order, no gaps" holds. -/
+def SingleChunk (c : Cfg) : Prop := c.maxItems = 0 ∨ c.ps ≤ c.maxItems
+
 /-- Configurations where the safety theorems hold: the candidate fix, or no reset. -/
 def Good (c : Cfg) : Prop := c.sync = true ∨ c.allowReset = false
 
 /-- The batch a handler holds was fetched right after its cursor, from existing logs. -/
 def PcOk (nLogs : Nat) (h : Handler) : Prop :=
   match h.pc with
-  | .exporting lo hi _ => lo = h.last ∧ lo < hi ∧ hi ≤ nLogs
+  | .exporting lo hi _ pos _ _ => lo = h.last ∧ lo < hi ∧ hi ≤ nLogs ∧ lo ≤ pos ∧ pos < hi
   | .retry lo hi _ => lo = h.last ∧ lo < hi ∧ hi ≤ nLogs
   | _ => True
 
@@ -44,6 +54,21 @@ structure WF (s : State) : Prop where
   /-- handlers exist only for a created pipeline under a running manager -/
   handlerUp : s.handler ≠ none → s.mgrUp = true ∧ s.created = true
 
+/-- The batcher's acknowledgement rule, as an invariant of every configuration:
+    while a page is being exported and no item has failed so far (`bad = false`),
+    everything that went through the exporter was acknowledged item by item. -/
+def Clean (s : State) : Prop :=
+  ∀ h lo hi m pos g, s.handler = some h → h.pc = .exporting lo hi m pos false g →
+    ∀ k, lo < k → k ≤ pos → k ∈ s.acked
+
+/-- A page is at most `ps` logs; with a single chunk per page nothing has been
+    sent before the chunk. -/
+def ExpOk (c : Cfg) (h : Handler) : Prop :=
+  match h.pc with
+  | .exporting lo hi _ pos _ _ => hi ≤ lo + c.ps ∧ (SingleChunk c → pos = lo)
+  | .retry lo hi _ => hi ≤ lo + c.ps
+  | _ => True
+
 /-- Safety invariant (needs `Good c`). -/
 structure Inv (c : Cfg) (s : State) : Prop where
   syncOrph : c.sync = true → s.orphans = []
@@ -54,13 +79,16 @@ structure Inv (c : Cfg) (s : State) : Prop where
   last_le : ∀ h, s.handler = some h → h.last ≤ s.ackHW
   ack_le : s.ackHW ≤ s.delivHW
   deliv_le : s.delivHW ≤ s.nLogs
-  chain : Chain s.recv s.delivHW
+  /-- the pages `Accept` reported as acknowledged were acknowledged item by item -/
+  ackedPre : AckedUpTo s s.ackHW
+  expOk : ∀ h, s.handler = some h → ExpOk c h
+  chain : SingleChunk c → Chain s.recv s.delivHW
 
 /-- The state right after `UpdatePipeline(last_log_id = NULL)` took effect: cursor
     cleared, nothing received or acknowledged in the new epoch, a (re)started
     handler begins before the first log. -/
 def Fresh (s : State) : Prop :=
-  s.persisted = 0 ∧ s.recv = [] ∧ s.delivHW = 0 ∧ s.ackHW = 0 ∧ s.cur = none ∧
+  s.persisted = 0 ∧ s.recv = [] ∧ s.delivHW = 0 ∧ s.ackHW = 0 ∧ s.acked = [] ∧ s.cur = none ∧
     ∀ h, s.handler = some h → h.last = 0 ∧ h.pc = .atFetch ∧ h.stopReq = false
 
 /-- Labels of the failure-free internal activity of a running pipeline. -/
@@ -79,18 +107,25 @@ def Label.recovery : Label → Bool
 
 /-! ### the reset race: witness schedules (used by `Ledger.Props.C33`) -/
 
-/-- Minimal schedule (any page size ≥ 2 behaves the same; 100 is the default). -/
+/-- Minimal schedule (any page size ≥ 2 behaves the same; 100 is the default; no
+    `maxItems`: the batcher flushes the page on its timer = `tick`). -/
 def raceTrace : List Label :=
-  [.append 2, .create, .fetch true, .accept .ok, .reset, .persist 0 true false]
+  [.append 2, .create, .fetch true, .tick, .accept .ok, .reset, .persist 0 true false]
 
 def raceTrace2 : List Label :=
-  raceTrace ++ [.stop, .fetch true, .start, .append 1, .fetch true, .accept .ok]
+  raceTrace ++ [.stop, .fetch true, .start, .append 1, .fetch true, .tick, .accept .ok]
 
 /-- the state `raceTrace2` leads to in `Cfg.real 100` -/
 def raceState2 : State :=
   { nLogs := 3, created := true, persisted := 2, mgrUp := true,
     handler := some { pc := .idle, last := 3, stopReq := false, zero := false },
     cur := some 3, orphans := [], pending := none, recv := [(2, 3)], delivHW := 3, ackHW := 3,
-    resets := 1, gen := 3 }
+    acked := [3], resets := 1, gen := 3 }
+
+/-- the batcher goes on after a failed chunk (`maxItems = 2`, page of 4): the
+    exporter receives 3,4 although it never saw 1,2 -/
+def chunkGapTrace : List Label :=
+  [.append 4, .create, .fetch true, .accept .fail, .accept .ok]
+
 
 end Ledger.Repl
